@@ -18,13 +18,17 @@ MODULES = {
     "C04": ("c04_c09", "run_c04"),
     "C05": ("c05", "run"),
     "C07": ("c07", "run"),
+    "C08": ("c08", "run"),
     "C09": ("c04_c09", "run_c09"),
     "C11": ("c11", "run"),
     "C12": ("c12", "run"),
     "C13": ("c13_c14", "run_c13"),
     "C14": ("c13_c14", "run_c14"),
+    "C15": ("c15_c16", "run_c15"),
+    "C16": ("c15_c16", "run_c16"),
     "C17": ("lockstep", "run_c17"),
     "C18": ("c18", "run"),
+    "C19": ("c19", "run"),
     "C20": ("c20", "run"),
 }
 
